@@ -76,6 +76,8 @@ def _wrap(rec, owner, name, kind, is_method=True, pre=None):
         if isinstance(out, list):
             fr['result'] = [snap(e) for e in out]
             fr['result_ids'] = [id(e) for e in out]
+        elif kind in ('mparse', 'presult') and out is not None and hasattr(out, 'start'):
+            fr['span'] = (out.start, out.length, out.text, bool(getattr(out, 'value', None)))
         rec.frames.append(fr)
         return out
 
@@ -128,6 +130,54 @@ def instrument():
         fr['keep'] = list(a[1]) + list(a[2])      # keep the objects alive so that ids stay unique
 
     BM.BaseMergedExtractor.add_to = _wrap(rec, BM.BaseMergedExtractor, 'add_to', 'addto', pre=pre_addto)
+
+    # ---- merged extractor pipeline, Chinese add_to, merged parser push/pop (RTV.Model.Merged)
+    def pre_ids(fr, a):
+        fr['in'] = [(id(e), e.start, e.length, e.text) for e in a[1]]
+        fr['keep'] = list(a[1])
+
+    def pre_src(fr, a):
+        fr['keep'] = list(a[1:2])
+
+    BM.BaseMergedExtractor.extract = _wrap(rec, BM.BaseMergedExtractor, 'extract', 'mext')
+    for nm, kind in (('filter_unespecific_date_period', 'unspec'), ('_filter_ambiguity', 'amb'),
+                     ('add_mod', 'addmod'), ('check_calendar_filter_list', 'cal')):
+        if nm in BM.BaseMergedExtractor.__dict__:
+            setattr(BM.BaseMergedExtractor, nm, _wrap(rec, BM.BaseMergedExtractor, nm, kind, pre=pre_ids))
+    try:
+        ZM = importlib.import_module('recognizers_date_time.date_time.chinese.merged_extractor')
+        common.assert_tree_modules(ZM)
+
+        def pre_zh(fr, a):
+            fr['dst'] = [(e.start, e.length, id(e), e.text) for e in a[1]]
+            fr['src'] = [(e.start, e.length, id(e), e.text) for e in a[2]]
+            fr['keep'] = list(a[1]) + list(a[2])
+
+        if 'add_to' in ZM.ChineseMergedExtractor.__dict__:
+            ZM.ChineseMergedExtractor.add_to = _wrap(rec, ZM.ChineseMergedExtractor, 'add_to', 'zhaddto', pre=pre_zh)
+    except ImportError:
+        pass
+    U = importlib.import_module('recognizers_text.utilities')
+    for nm in ('match_begin', 'match_end'):
+        orig_fn = U.RegExpUtility.__dict__[nm].__func__
+
+        def logged(pattern, text, trim, _orig=orig_fn, _nm=nm):
+            r = _orig(pattern, text, trim)
+            rec.log((_nm, pattern, text, None if r is None else (r.index, r.length, bool(r.success))))
+            return r
+
+        setattr(U.RegExpUtility, nm, staticmethod(logged))
+
+    def pre_parse(fr, a):
+        er = a[1]
+        fr['er'] = (er.start, er.length, er.text, er.type, bool(er.meta_data and er.meta_data.has_mod))
+
+    def pre_presult(fr, a):
+        er = a[1]
+        fr['pushed'] = (er.start, er.length, er.text)
+
+    BM.BaseMergedParser.parse = _wrap(rec, BM.BaseMergedParser, 'parse', 'mparse', pre=pre_parse)
+    BM.BaseMergedParser.parse_result = _wrap(rec, BM.BaseMergedParser, 'parse_result', 'presult', pre=pre_presult)
     _S['rec'] = rec
     _S['NE'], _S['SE'] = NE, SE
     return rec
@@ -382,7 +432,143 @@ def conv_phone(fr):
     return out
 
 
-CONV = {'num': conv_num, 'seq': lambda f: conv_seq(f, 'seq'), 'ip': lambda f: conv_seq(f, 'ip'),
+
+def conv_mext(fr):
+    """the whole BaseMergedExtractor.extract as one model call: inputs = the src of every add_to step."""
+    ext, src = fr['args'][0], fr['args'][1]
+    if fr['result'] is None or getattr(ext, 'options', 0):
+        return None
+    steps = [c for c in fr['children'] if c['kind'] == 'addto']
+    if not steps or any(c.get('raw') is None for c in steps):
+        return None
+    tags = {}
+
+    def tag(oid):
+        return tags.setdefault(oid, len(tags))
+
+    inputs = [[(s_, l_, tag(o)) for s_, l_, o in c['src']] for c in steps]
+    chain_ok = all([(x[0], x[1], x[2]) for x in steps[i + 1]['dst']] ==
+                   [(r['start'], r['length'], r['id']) for r in steps[i]['result']] for i in range(len(steps) - 1))
+    if not chain_ok or steps[0]['dst']:
+        return {'kind': 'mext', 'problem': 'add_to steps do not chain (a step\'s destinations are not the previous result)'}
+    un = next((c for c in fr['children'] if c['kind'] == 'unspec'), None)
+    am = next((c for c in fr['children'] if c['kind'] == 'amb'), None)
+    mo = next((c for c in fr['children'] if c['kind'] == 'addmod'), None)
+    ca = next((c for c in fr['children'] if c['kind'] == 'cal'), None)
+    unspec, ambig, cal, ops = [], [], [], []
+    if un is not None:
+        rx = ext.config.unspecified_date_period_regex
+        unspec = [tag(o) for o, s_, l_, t in un['in'] if rx.search(t) is not None]
+    if am is not None and am['result'] is not None:
+        left = {r['id'] for r in am['result']}
+        ambig = [tag(o) for o, s_, l_, t in am['in'] if o not in left]
+    if mo is not None and mo['result'] is not None:
+        after = {r['id']: r for r in mo['result']}
+        for o, s_, l_, t in mo['in']:
+            r = after.get(o)
+            if r is None:
+                continue
+            if r['start'] != s_:
+                ops.append((tag(o), 'p', r['start']))
+            grow = (r['start'] + r['length']) - (s_ + l_)
+            if grow:
+                ops.append((tag(o), 'e', grow))
+    if ca is not None and ca['result'] is not None:
+        left = {r['id'] for r in ca['result']}
+        cal = [tag(o) for o, s_, l_, t in ca['in'] if o not in left]
+    op = '\t'.join(['mg.ext', cps(src), '|'.join(fmt_items(i) for i in inputs) if inputs else '_',
+                    fmt_items([(t,) for t in unspec]), fmt_items([(t,) for t in ambig]), fmt_items(ops),
+                    fmt_items([(t,) for t in cal])])
+    impl = fmt_ers(fr['result'], lambda r: str(tags.get(r['id'], 'x')))
+    spans = [(r['start'], r['length']) for r in fr['result']]
+    disjoint = all(a[0] + a[1] <= b[0] or b[0] + b[1] <= a[0] for i, a in enumerate(spans) for b in spans[i + 1:])
+    inside = all(0 <= r['start'] and r['start'] + r['length'] <= len(src) and
+                 r['text'] == src[r['start']:r['start'] + r['length']] for r in fr['result'])
+    return {'kind': 'mext', 'op': op, 'impl': impl, 'src': src, 'n_results': len(fr['result']),
+            'hyp': {'disjoint_out': disjoint, 'inside_and_slice_out': inside, 'mods': len(ops)},
+            'problem': None, 'ext': type(ext).__name__}
+
+
+def conv_zhaddto(fr):
+    if fr.get('raw') is None:
+        return None
+    dst, src = fr['dst'], fr['src']
+    tags = {}
+    for i, x in enumerate(dst + src):
+        tags.setdefault(x[2], i)
+    texts = {tags[x[2]]: x[3] for x in dst + src}
+    incl = [(tags[v[2]], tags[d[2]]) for v in src for d in dst + src
+            if tags[d[2]] != tags[v[2]] and texts[tags[d[2]]] in texts[tags[v[2]]]]
+    op = '\t'.join(['mg.zh', fmt_items([(s_, l_, tags[o]) for s_, l_, o, _ in dst]),
+                    fmt_items([(s_, l_, tags[o]) for s_, l_, o, _ in src]), fmt_items(incl)])
+    impl = ';'.join('%d:%d:%s' % (e['start'], e['length'], tags.get(e['id'], 'x')) for e in fr['result'])
+    spans = [(r['start'], r['length']) for r in fr['result']]
+    disjoint = all(a[0] + a[1] <= b[0] or b[0] + b[1] <= a[0] for i, a in enumerate(spans) for b in spans[i + 1:])
+    return {'kind': 'zhaddto', 'op': op, 'impl': impl, 'src': fr['args'][3] if len(fr['args']) > 3 else '',
+            'n_results': len(fr['result']), 'hyp': {'disjoint_out': disjoint}, 'problem': None,
+            'ext': 'ChineseMergedExtractor'}
+
+
+def conv_mparse(fr):
+    """BaseMergedParser.parse: the recorded match facts -> model push / pop; compared with the span the sub-parser
+    was given and with the span finally returned."""
+    parser = fr['args'][0]
+    if getattr(parser, 'options', 0) or 'er' not in fr:
+        return None
+    start, length, text, typ, has_mod = fr['er']
+    inner = next((c for c in fr['children'] if c['kind'] == 'presult'), None)
+    if inner is None or 'span' not in inner or 'span' not in fr:
+        return None
+    cfg = parser.config
+    log = [c for c in fr['calls'] if c[0] in ('match_begin', 'match_end')]
+
+    def first(nm, pat):
+        return next((c[3] for c in log if c[0] == nm and c[1] is pat), None)
+
+    facts = {'kind': 'none', 'ki': 0, 'kl': 0, 'kb': 0, 'ar': 0, 'ai': 0, 'al': 0, 'ia': 0}
+    if has_mod:
+        res, is_after = {}, False
+        for name, pat in (('before', cfg.before_regex), ('after', cfg.after_regex), ('since', cfg.since_regex),
+                          ('around', cfg.around_regex), ('equal', cfg.equal_regex)):
+            b = first('match_begin', pat)
+            begin_ok = bool(b and b[2])
+            fin = b
+            if b is not None and not b[2]:
+                fin = first('match_end', pat)
+                if fin is not None and fin[2]:
+                    is_after = True
+            res[name] = (begin_ok, fin)
+        facts['ia'] = int(is_after)
+        ar = res['around'][1]
+        if ar is not None and ar[2]:
+            facts.update(ar=1, ai=ar[0], al=ar[1])
+        for name in ('before', 'after', 'since', 'equal'):
+            fin = res[name][1]
+            if fin is not None and fin[2]:
+                facts.update(kind=name, ki=fin[0], kl=fin[1], kb=int(res[name][0]))
+                break
+        else:
+            sa = first('match_end', getattr(cfg, 'suffix_after', None))
+            if sa is not None and sa[2]:
+                facts.update(kind='dateAfter', ki=sa[0], kl=sa[1])
+    ps, pl, pt = inner['pushed']
+    rs, rl, rt, rv = inner['span']
+    fs, fl, ft, _ = fr['span']
+    if min(start, length, ps, pl, rl) < 0:
+        return {'kind': 'mparse', 'skipped': 'negative offset before the pop'}
+    op = '\t'.join(['mg.pp', facts['kind'], str(facts['ki']), str(facts['kl']), str(facts['kb']), str(facts['ar']),
+                    str(facts['ai']), str(facts['al']), str(facts['ia']), '1' if rv else '0', '1',
+                    str(start), str(length), cps(text), str(rs), str(rl), cps(rt)])
+    impl = '%d:%d:%s|%d:%d:%s' % (ps, pl, cps(pt), fs, fl, cps(ft))
+    return {'kind': 'mparse', 'op': op, 'impl': impl, 'src': text, 'n_results': 1 if facts['kind'] != 'none' or facts['ar'] else 0,
+            'hyp': {'modifier': facts['kind'] != 'none' or bool(facts['ar']),
+                    'two_modifiers': facts['kind'] in ('before', 'after', 'since') and bool(facts['ar']),
+                    'sub_parser_keeps_span': (rs, rl, rt) == (ps, pl, pt),
+                    'restored_equals_original': (fs, fl, ft) == (start, length, text) or not rv},
+            'problem': None, 'ext': type(parser).__name__}
+
+
+CONV = {'mext': conv_mext, 'zhaddto': conv_zhaddto, 'mparse': conv_mparse, 'num': conv_num, 'seq': lambda f: conv_seq(f, 'seq'), 'ip': lambda f: conv_seq(f, 'ip'),
         'pct': conv_pct, 'grp': conv_grp, 'mat': conv_mat, 'addto': conv_addto}
 
 
